@@ -75,7 +75,25 @@ func generate(s Spec) (files map[string]string, class string) {
 	if err := g.WriteSource(fs, "api"); err != nil {
 		return nil, "write: " + regen.Classify("write", err)
 	}
+	// the same Generator writes its output a second time: rendering must not have changed the IR
+	fs2 := &memFS{files: map[string]string{}}
+	if err := g.WriteSource(fs2, "api"); err != nil {
+		return fs.files, secondWrite + "the second WriteSource of one Generator fails: " + err.Error()
+	}
+	if digest(fs.files, "ok") != digest(fs2.files, "ok") {
+		return fs.files, secondWrite + firstDiff(fs.files, fs2.files)
+	}
 	return fs.files, "ok"
+}
+
+// secondWrite prefixes the class of a generation whose Generator does not reproduce its own output.
+const secondWrite = "second-write-differs: "
+
+func secondWriteFinding(name, class string) *vk.Finding {
+	if strings.HasPrefix(class, secondWrite) {
+		return vk.F("output-differs-on-second-write", "%s: one Generator, WriteSource called twice, the outputs differ (rendering changed the IR): %s", name, trim(strings.TrimPrefix(class, secondWrite), 800))
+	}
+	return nil
 }
 
 // featureVariant: generator feature configurations a history switches between (0 = defaults).
@@ -200,6 +218,20 @@ func drawMediaDoc(t *rapid.T) string {
 		if len(out) == 0 {
 			out["application/json"] = map[string]any{"schema": schemaFor("application/json")}
 		}
+		if rapid.IntRange(0, 2).Draw(t, label+"-params") == 0 {
+			// one media type under two parameter sets, each with a schema of its own (and no bare key of that type)
+			base := rapid.SampledFrom([]string{"application/json", "application/problem+json", "text/plain"}).Draw(t, label+"-ptype")
+			delete(out, base)
+			for _, v := range []string{"1", "2", "3"}[:rapid.IntRange(2, 3).Draw(t, label+"-pn")] {
+				sch := schemaFor(base)
+				if props, ok := sch["properties"].(map[string]any); ok {
+					props["v"+v] = map[string]any{"type": "boolean"}
+				} else {
+					sch = map[string]any{"type": "string", "maxLength": 10 * int(v[0]-'0')}
+				}
+				out[base+"; version="+v] = map[string]any{"schema": sch}
+			}
+		}
 		return out
 	}
 	// in half of the documents EVERY operation has the same default response (one component) with 2-3
@@ -290,6 +322,9 @@ func runHistory(u *vk.Unit, h History) *vk.Finding {
 	check := func(i int, files map[string]string, class string, how string) *vk.Finding {
 		if strings.HasPrefix(class, "panic") {
 			return vk.F("generator-panic", "%s: %s", h.Specs[i].Name, trim(class, 1500))
+		}
+		if f := secondWriteFinding(h.Specs[i].Name, class); f != nil {
+			return f
 		}
 		count[i]++
 		if procsSeen[i] == nil {
@@ -619,6 +654,9 @@ func TestRecursiveSchemas(t *testing.T) {
 			if strings.HasPrefix(class, "panic") {
 				return vk.F("generator-panic", "%s", trim(class, 1500))
 			}
+			if f := secondWriteFinding("document", class); f != nil {
+				return f
+			}
 			if i == 0 {
 				ref, refClass = files, class
 				continue
@@ -658,6 +696,9 @@ func TestMediaTypes(t *testing.T) {
 			u.Eval(1)
 			if strings.HasPrefix(class, "panic") {
 				return vk.F("generator-panic", "%s", trim(class, 1500))
+			}
+			if f := secondWriteFinding("document", class); f != nil {
+				return f
 			}
 			if i == 0 {
 				ref, refClass = files, class
